@@ -50,4 +50,9 @@ theorem userProp_fill (kv : Bytes × Bytes) : Gen.UserProp.fill kv = fillPair kv
   funext b i
   simp only [Gen.UserProp.fill, fillPair, bindata_fill, Gen.UserProp.width, Gen.bindata.width]
 
+/-- **`rawdata.UnmarshalBinary`** (the PUBLISH payload): a copy of everything that is left -/
+theorem rawdata_dec : Gen.rawdata.dec = decRaw := by
+  funext data
+  simp only [Gen.rawdata.dec, decRaw, Gen.rawdata.width, copy_fresh data data.length rfl]
+
 end Mq.Tie.WireVar
